@@ -140,6 +140,17 @@ fn metadata_accessor(key: &str, m: &cooklang::Metadata, conv: &Converter) -> Val
     }
 }
 
+/// a value in the documented form of every checked key
+fn control_value(key: &str) -> &'static str {
+    match key {
+        "servings" | "serves" | "yield" => "2",
+        "tags" => "a",
+        "locale" => "en",
+        "author" | "source" | "source.name" | "source.url" | "author.name" | "author.url" => "x",
+        _ => "5",
+    }
+}
+
 /// `extra`: other entries (key: value lines) written before the entry under test
 pub fn doc_text(key: &str, val: &str, style: &str, extra: &[(String, String)]) -> String {
     let pre: String = extra.iter().map(|(k, v)| if style == "old" { format!(">> {k}: {v}\n") } else { format!("{k}: {v}\n") }).collect();
@@ -172,7 +183,12 @@ pub fn main(args: &[String]) {
             match guarded(|| parser.parse(&text)) {
                 Err(p) => o["obs"] = json!({"st": "panic", "sig": panic_signature(&p)}),
                 Ok(res) => {
-                    let warned = res.report().iter().any(|d| d.message.starts_with("Unsupported value for key"));
+                    // "a warning at parse time" is told apart from the deprecation notice and from warnings about other entries
+                    // without relying on its wording: some warning occurs more often than in the same document written with a
+                    // value in the documented form
+                    let control = parser.parse(&doc_text(key, control_value(key), if style == "old" { "old" } else { "yaml" }, &extra));
+                    let count = |rep: &cooklang::error::SourceReport, m: &str| rep.warnings().filter(|d| d.message == m).count();
+                    let warned = res.report().warnings().any(|d| count(res.report(), &d.message) > count(control.report(), &d.message));
                     let errors = res.report().errors().count();
                     match res.output() {
                         None => o["obs"] = json!({"st": "nooutput", "warned": warned, "errors": errors}),
